@@ -21,7 +21,7 @@ from pytestarch import DiagramRule
 from .. import models as M
 from .. import projspace as PS
 from .. import rulespace as RS
-from ..drive import (Project, build_layer_rule, build_rule, full_snapshot, make_evaluable, outcome, scan_outcome, write_puml)
+from ..drive import (Project, build_layer_arch, build_layer_rule, build_rule, full_snapshot, make_evaluable, outcome, scan_outcome, write_puml)
 from . import c05, c07
 
 ID = "C15"
@@ -530,6 +530,10 @@ def batch_cases(draw):
 
 def eval_batch_case(spec) -> list:
     t = spec["type"]
+    if t == "layerdef":
+        # building the architecture of a layer rule; the definition is inconsistent and the error it ends in (its text too)
+        # has to be the same under every hash seed
+        return list(norm(outcome(lambda: build_layer_arch(spec["layers"]))))
     if t == "rule":
         ev = make_evaluable(spec["tree"], [tuple(e) for e in spec["imports"]])
         return list(norm(outcome(lambda: build_rule(spec["rule"]).assert_applies(ev))))
@@ -581,6 +585,18 @@ def nested_layer_cases() -> list:
     return out
 
 
+def duplicate_module_cases() -> list:
+    """Layer definitions that list several modules a second time (round 8, found by two reviewers): the definition is
+    rejected; the text of that error names the modules and must not depend on the hash seed."""
+    first = ["proj.m", "proj.n", "proj.o", "proj.p", "proj.q"]
+    out = []
+    for k in (2, 3, 4, 5):
+        for second in (list(reversed(first[:k])) + ["proj.x"], ["proj.y"] + first[:k]):
+            out.append({"type": "layerdef", "layers": [{"name": "import", "kind": "names", "modules": first, "as_str": False},
+                                                        {"name": "model", "kind": "names", "modules": second, "as_str": False}]})
+    return out
+
+
 def hash_seed_part(ctx, n_cases: int, seeds=range(8)) -> None:
     from ..runner import REPO, Stats, derive_seed
 
@@ -596,6 +612,7 @@ def hash_seed_part(ctx, n_cases: int, seeds=range(8)) -> None:
 
     collect()
     specs.extend(nested_layer_cases())
+    specs.extend(duplicate_module_cases())
     fd, batch = tempfile.mkstemp(prefix="pbt_c15_", suffix=".json")
     os.close(fd)
     Path(batch).write_text(json.dumps(specs))
@@ -623,7 +640,7 @@ def hash_seed_part(ctx, n_cases: int, seeds=range(8)) -> None:
                 diff = {hs: v[:300] for hs, v in variants.items() if v != ref[i]}
                 viols.append({"sig": f"C15/hash-seed-dependent/{spec['type']}", "key": {"type": spec["type"]},
                               "detail": f"PYTHONHASHSEED=0 -> {ref[i][:300]}; differing: {diff}"})
-            multi = spec["type"] != "rule" or len(spec["rule"]["subj"]["names"]) + len((spec["rule"].get("obj") or {"names": []})["names"]) > 2
+            multi = spec["type"] not in ("rule",) or len(spec["rule"]["subj"]["names"]) + len((spec["rule"].get("obj") or {"names": []})["names"]) > 2
             stt.record(dict(spec, check="check_batch_case"), {"violations": viols, "nontrivial": multi, "labels": ["hash-seed", f"type={spec['type']}"]},
                        enumerated=False, sample=(i % 60 == 0))
         stt.evaluations += len(specs) * (len(list(seeds)) - 1)
